@@ -204,6 +204,26 @@ func sigOf(f func() (interface{}, error)) (s string) {
 	return "ok: " + canon.String(canon.Split(canon.Of(v)))
 }
 
+// checked is a pre-filled map entry that carries a validator
+type checked struct {
+	Port int `validate:"min=1"`
+}
+
+// prefilled builds a target map that already holds entries the configuration does not mention (one of them
+// invalid in some cases), inserted in the order perm gives
+func prefilled(perm []int, bad int) map[string]interface{} {
+	names := []string{"p1", "p2", "p3", "p4"}
+	m := map[string]interface{}{}
+	for _, i := range order(len(names), perm) {
+		port := 9200
+		if i == bad {
+			port = 0 // violates min=1
+		}
+		m[names[i]] = checked{Port: port}
+	}
+	return m
+}
+
 type typedTarget struct {
 	A int            `config:"a"`
 	B string         `config:"b"`
@@ -245,7 +265,23 @@ func runCase(c Case, r *runlog.R) error {
 						return nil, err
 					}
 				}
-				return uc.Dump(cfg, opts...)
+				d, err := uc.Dump(cfg, opts...)
+				if err != nil {
+					return nil, err
+				}
+				// ... and into a target map that is pre-filled with entries of its own: which of them are validated
+				// must not depend on the enumeration order of either map
+				bad := -1
+				if len(c.Perms) > 0 && len(c.Perms[0]) > 0 {
+					bad = c.Perms[0][0] % 6 // 0..3: that entry is invalid, 4..5: none is
+				}
+				pm := prefilled(perm, bad)
+				perr := cfg.Unpack(&pm, opts...)
+				ps := "prefilled ok"
+				if perr != nil {
+					ps = "prefilled " + errKind(perr)
+				}
+				return []interface{}{d, ps, len(pm)}, nil
 			})
 		case "refs", "faults":
 			opts, err := vx.Options(c.Envs, c.Resolvers)
@@ -335,7 +371,7 @@ func interacting(c Case) bool {
 
 var subOrder = runlog.Register(&runlog.Sub[Case]{
 	Name:    "order-independence",
-	Rule:    "four input classes: (newfrom) top-level maps whose keys overlap after dotted expansion (same leaf, prefixes of one another, object vs primitive vs list vs nil), optionally with references; (merge) two such maps merged under one of the five policies; (refs) reference graphs incl. cycles absorbed by defaults/resolvers unpacked into generic data; (faults) the same graphs unpacked into a typed struct so that several settings fail with faults of different kinds. Each case carries 3-6 insertion permutations; the operation is repeated 8 (quick) / 24 (thorough) / 200 (replay) times on freshly built inputs and all outcome signatures (canonical data, or error kind = root Reason with quoted parts blanked) must be equal. Non-trivial: at least two keys at one level overlap or settings reference each other, and at least two different enumeration orders of the root dictionary were observed. Distinct: hash of the case.",
+	Rule:    "four input classes: (newfrom) top-level maps whose keys overlap after dotted expansion (same leaf, prefixes of one another, object vs primitive vs list vs nil), optionally with references; (merge) two such maps merged under one of the five policies - both also unpacked into a target map pre-filled with entries of its own, one of which may fail validation; (refs) reference graphs incl. cycles absorbed by defaults/resolvers unpacked into generic data; (faults) the same graphs unpacked into a typed struct so that several settings fail with faults of different kinds. Each case carries 3-6 insertion permutations; the operation is repeated 8 (quick) / 24 (thorough) / 200 (replay) times on freshly built inputs and all outcome signatures (canonical data, or error kind = root Reason with quoted parts blanked) must be equal. Non-trivial: at least two keys at one level overlap or settings reference each other, and at least two different enumeration orders of the root dictionary were observed. Distinct: hash of the case.",
 	Gen:     genCase,
 	Run:     runCase,
 	Journal: true, // a worker that dies (memory, stack) names its case
